@@ -1,0 +1,67 @@
+// Copyright (C) The Arvados Authors. All rights reserved.
+//
+// SPDX-License-Identifier: AGPL-3.0
+
+//go:build verif
+// +build verif
+
+// Machine-checked contracts (read by /verif/bin/govc; never compiled into
+// normal builds).  See /verif/DESIGN.md section 3 for the language.
+
+package scheduler
+
+// The pool and the queue are arbitrary (every answer is possible); they do not
+// touch the scheduler's own per-pass bookkeeping (maps and slices local to one
+// pass of runQueue / sync).
+//@ iface WorkerPool.Running
+//@   modifies nothing
+//@ iface WorkerPool.Unallocated
+//@   modifies nothing
+//@ iface WorkerPool.AtQuota
+//@   modifies nothing
+//@ iface WorkerPool.Create
+//@   modifies nothing
+//@ iface WorkerPool.Shutdown
+//@   modifies nothing
+//@ iface WorkerPool.StartContainer
+//@   modifies nothing
+//@ iface WorkerPool.KillContainer
+//@   modifies nothing
+//@ iface WorkerPool.ForgetContainer
+//@   modifies nothing
+//@ iface ContainerQueue.Entries
+//@   modifies nothing
+//@ iface ContainerQueue.Unlock
+//@   modifies nothing
+//@ iface ContainerQueue.Lock
+//@   modifies nothing
+//@ iface ContainerQueue.Cancel
+//@   modifies nothing
+//@ iface ContainerQueue.Forget
+//@   modifies nothing
+//@ iface ContainerQueue.Get
+//@   modifies nothing
+//@ pure prometheus.Gauge.Set Gauge.Set
+
+//@ func Scheduler.runQueue$1 property C16
+//@   ensures result == (sorted[i].Container.Priority > sorted[j].Container.Priority)
+
+// One scheduling pass.  A crunch-run process is started only for a container
+// that is Locked, has priority >= 1, is not reported running (or exited but
+// not yet reconciled) by the pool, whose previous process is confirmed gone
+// (KillContainer returned false), and whose instance type has not already
+// failed to start a higher-priority container in this pass (C16).  A lock is
+// requested only for Queued containers that are not running.  When the pool
+// is at quota every Locked container from the cut-off point on is unlocked.
+//@ func Scheduler.runQueue property C14,C16 safety -bounds
+//@   ghost killed bool = true
+//@   ghost lastUnlocked string = ""
+//@   calls WorkerPool.KillContainer#2: requires $0 == ctr.UUID
+//@   calls WorkerPool.KillContainer#2: set killed = $r
+//@   calls WorkerPool.StartContainer#1: requires ctr.State == arvados.ContainerStateLocked && ctr.Priority >= 1 && !has(running, ctr.UUID) && !dontstart[it] && !killed && $0 == it && $1 == ctr
+//@   calls Scheduler.lockContainer#1: requires ctr.State == arvados.ContainerStateQueued && ctr.Priority >= 1 && !has(running, ctr.UUID) && $1 == ctr.UUID
+//@   calls ContainerQueue.Unlock#1: requires ctr.State == arvados.ContainerStateLocked && $0 == ctr.UUID
+//@   calls ContainerQueue.Unlock#2: requires ctr.State == arvados.ContainerStateLocked && $0 == ctr.UUID
+//@   calls ContainerQueue.Unlock#2: set lastUnlocked = $0
+//@   loop 4: exhaustive
+//@   at loop 4 back: assert ctr.State == arvados.ContainerStateLocked ==> lastUnlocked == ctr.UUID
